@@ -398,10 +398,18 @@ func (res *PropResult) report(p *Program, cfg *PropConfig, tier string, writeBas
 			knownPrinted = append(knownPrinted, fmt.Sprintf("KNOWN-FINDING: property=%s %s %s", cfg.ID, s.Name, kf.What))
 			continue
 		}
-		violations++
 		os.MkdirAll(replayDir, 0o755)
 		path := filepath.Join(replayDir, sanitize(s.Name)+".json")
 		reproduced := writeReplay(p, cfg.ID, s, path)
+		if !reproduced && !inBase[s.Name] && !inBaseNorm[normOb(s.Name)] {
+			// an obligation that was never discharged on the unchanged tree (new code, or a clause
+			// the engine never decided) and whose counterexample does not replay on the real code
+			// is undecided, not a violation
+			os.Remove(path)
+			undecidedNew = append(undecidedNew, s.Name)
+			continue
+		}
+		violations++
 		line := fmt.Sprintf("VIOLATION property=%s replay=%s", cfg.ID, path)
 		if !reproduced {
 			line += " no-failing-input-found"
